@@ -2,6 +2,8 @@ package dawn
 
 import (
 	"math/rand/v2"
+	"sort"
+	"strings"
 
 	"verif.local/sim/simcheck"
 )
@@ -68,7 +70,40 @@ func c01Gen(r *rand.Rand, tier string) any {
 					}
 				}
 			}
-			if r.IntN(14) == 0 {
+			if r.IntN(8) == 0 && !op.Reload && !op.Keep && !op.Dry && op.CrashAt == 0 && op.IOErrPM == 0 {
+				// watch mode: a target's first dependency fails while a later one is still
+				// busy; the build fails, a source of the busy one is edited right after the
+				// build returned, and the same process builds again
+				var cands []int
+				for ti := range shadow.Targets {
+					if len(shadow.Targets[ti].Deps) >= 2 && shadow.target(shadow.Targets[ti].Deps[0]) != nil && shadow.target(shadow.Targets[ti].Deps[1]) != nil {
+						cands = append(cands, ti)
+					}
+				}
+				if len(cands) > 0 {
+					t := &shadow.Targets[cands[r.IntN(len(cands))]]
+					x, y := shadow.target(t.Deps[0]), shadow.target(t.Deps[1])
+					var files []string
+					for _, s := range y.Sources {
+						if rel := shadow.sourceRel(y, s); shadow.Files[rel] != "" && !strings.HasPrefix(shadow.Files[rel], linkMark) {
+							files = append(files, rel)
+						}
+					}
+					if len(files) > 0 && x != y && !shadow.reaches(y, x) {
+						// the failing one is quick, the other slow (the spec itself is adjusted)
+						for _, sp := range []*projSpec{shadow, sc.Spec} {
+							sp.target(x.label()).Yields = 0
+							sp.target(y.label()).Yields = 3
+						}
+						sort.Strings(files)
+						ed := opSpec{Op: "edit-source", Path: files[r.IntN(len(files))], N: 1000 + i}
+						shadow.applySpecEdit(&ed)
+						op.Label, op.Fail, op.Always = t.label(), []string{x.label()}, false
+						op.Twice, op.Between = true, &ed
+					}
+				}
+			}
+			if r.IntN(14) == 0 && op.Between == nil {
 				// REPL / watch: a dry run with options, (N=1: Reload,) then Run with nil options
 				op = opSpec{Op: "build", Label: op.Label, DryNil: true, N: r.IntN(2)}
 			}
